@@ -272,8 +272,9 @@ def script(rng, case, idx):
         a = C('ra', '1 L', [(water, '100 mL'), (salt, '3 g'), (lip, '20 U')])
         b = C('rb', '500 mL')
         pl = P('rp', '300 uL', rows=2, columns=2)
+        pq = P('rq', '300 uL', rows=2, columns=2)
         try:
-            r.uses(a, b, pl)
+            r.uses(a, b, pl, pq)
             r.start_stage('one')
             r.transfer(a, b, rng.choice(['10 mL', '5 g', '0.3 mol']))
             r.transfer(a, pl, rng.choice(['20 uL', '15 mg', '1 mmol']))
@@ -287,6 +288,12 @@ def script(rng, case, idx):
             r.remove(pl[2, :], rng.choice([salt, 2]))
             d2 = r.create_solution_from(a, salt, '0.01 M', water, '5 mL', name='d2')
             r.transfer(d2, pl[(1, 1)], '3 uL')
+            r.end_stage('two')
+            # a stage that only moves material between the plates: with the plates as destinations nothing enters or leaves
+            r.start_stage('move')
+            r.transfer(pl[1, :], pq[rng.choice([1, 2]), :], rng.choice(['3 uL', '5 uL', '1.3 uL']))
+            r.remove(pq[:, 2], rng.choice([salt, 2]))
+            r.end_stage('move')
             res = r.bake()
             rec('recipe.decision', 'decision', None, 'ok')
         except Exception as e:   # noqa
@@ -297,6 +304,12 @@ def script(rng, case, idx):
             for nme in ('ra', 'rb', 'made', 'd2'):
                 observe('recipe.' + nme, res[nme])
             observe('recipe.rp', res['rp'])
+            for s, u in ((salt, 'umol'), (water, 'uL'), (sulf, 'umol'), (lip, 'U')):
+                try:
+                    v = r.get_substance_used(s, 'move', u)
+                except Exception as e:   # noqa
+                    v = exc_name(e)
+                rec(f'recipe.used.{s.name}.move.{u}.plates_closed', 'tracking', u, v)
             for tf in ('all', 'one', 'two'):
                 for s, u in ((salt, 'mmol'), (salt, 'mg'), (water, 'mL'), (sulf, 'umol'), (lip, 'U')):
                     for dests, dl in (('plates', 'plates'), ([b], 'rb'), ([a, b, pl, made, d2], 'all'), ([a], 'ra_which_only_gives')):
@@ -421,7 +434,9 @@ def finalize(m, tier):
                 ok = True
                 if isinstance(va, str) or isinstance(vb, str) or va is None or vb is None:
                     ok = va == vb
-                    if not ok and kind == 'tracking' and '.used.' in label and 'ValueError' in (va, vb):
+                    if 'plates_closed' in label and 'ValueError' in (va, vb):
+                        ok = False          # nothing enters or leaves the plates in that stage: 0 under every configuration
+                    elif not ok and kind == 'tracking' and '.used.' in label and 'ValueError' in (va, vb):
                         # noise zone of get_substance_used: a true answer of zero may come out as a rounding-sized net
                         # decrease (ValueError) under one configuration and as 0.0 under the other
                         other = vb if va == 'ValueError' else va
